@@ -242,7 +242,7 @@ fn content(r: &mut rand::rngs::StdRng, kind: usize, n: usize) -> Vec<u8> {
         _ => (0..n).map(|_| r.gen()).collect(),
     }
 }
-fn best_mode(p: &[u8]) -> usize {
+pub fn best_mode(p: &[u8]) -> usize {
     if p.iter().all(|b| b.is_ascii_digit()) { 0 } else if p.iter().all(|b| ALNUM.contains(b)) { 1 } else { 2 }
 }
 
